@@ -436,14 +436,16 @@ TRUSTED_BASE = [
 
 def proof_layer(rep, prop_module, cone_files, extra_targets=(), untrans_filter=None):
     """Regenerate Gen, build the property's .vo cone, scan, Print Assumptions.
+    prop_module: one Props module name or a list of them (all are built; every theorem of every module is checked).
     Returns (ok, details). On failure records nothing yet: the caller searches for a failing input first."""
     details = {}
+    modules = [prop_module] if isinstance(prop_module, str) else list(prop_module)
     with Lock():
         untrans = regen()
         if untrans_filter is not None:
             untrans = [u for u in untrans if untrans_filter(u)]
         details["untranslatable"] = untrans
-        targets = [os.path.join("theories", "Props", prop_module + ".vo")] + list(extra_targets)
+        targets = [os.path.join("theories", "Props", mod + ".vo") for mod in modules] + list(extra_targets)
         ok, log = coq_build(targets)
         details["coq_ok"] = ok
         if not ok:
@@ -452,11 +454,17 @@ def proof_layer(rep, prop_module, cone_files, extra_targets=(), untrans_filter=N
             details["failed_at"] = "%s:%s" % (m.group(1), m.group(2)) if m else "?"
         problems = scan_sources()
         details["scan_problems"] = problems
-        names = theorem_names(os.path.join(COQ, "theories", "Props", prop_module + ".v"))
-        details["theorems"] = names
+        names = []
         bad = []
-        if ok:
-            _, _, bad = print_assumptions(prop_module, [n for n in names])
+        for mod in modules:
+            mnames = theorem_names(os.path.join(COQ, "theories", "Props", mod + ".v"))
+            if not mnames:
+                bad.append("%s: no theorems" % mod)
+            names += mnames
+            if ok:
+                _, _, b = print_assumptions(mod, mnames)
+                bad += b
+        details["theorems"] = names
         details["assumption_problems"] = bad
     vfiles = [os.path.join(COQ, "theories", f) for f in cone_files]
     missing = [f for f in vfiles if not os.path.exists(f)]
@@ -466,7 +474,7 @@ def proof_layer(rep, prop_module, cone_files, extra_targets=(), untrans_filter=N
     all_ok = ok and not problems and not bad and not untrans and not missing and bool(names)
     rep.coverage["obligations"] = obl
     rep.coverage["discharged"] = obl if all_ok else 0
-    rep.coverage["checker_cmd"] = "cd coq && make -f Makefile.coq theories/Props/%s.vo && coqc Print Assumptions <each theorem>" % prop_module
+    rep.coverage["checker_cmd"] = "cd coq && make -f Makefile.coq %s && coqc Print Assumptions <each theorem>" % " ".join("theories/Props/%s.vo" % mod for mod in modules)
     rep.coverage["trusted_base"] = TRUSTED_BASE
     rep.coverage["theorems"] = names
     rep.coverage["print_assumptions"] = "Closed under the global context (all)" if all_ok else "see proof_details"
@@ -497,11 +505,30 @@ def setup():
     return 0
 
 
+def order_dependent(rep):
+    """answers of sample_offset / read_sample that changed when the harness repeated the call on the same reader (readcheck.ORDER_DEP):
+    the first or the later answer is not the one the property prescribes for that file and sample id"""
+    import readcheck
+    seen = 0
+    for profile, case, deps in readcheck.ORDER_DEP:
+        if seen >= 3:
+            break
+        d = deps[0]
+        rep.violation("order_dependent_%s_%d" % (profile, seen),
+                      {"kind": "input", "what": "%s(track %s, sample %s) answered differently when asked again on the same reader" % (
+                          {"off": "sample_offset", "rs": "read_sample"}.get(d["call"][0], d["call"][0]), d["call"][1], d["call"][2]),
+                       "first": d["first"], "later": d["later"], "profile": profile, "file": case["data"].hex(), "frag": case.get("frag", b"").hex(),
+                       "replay_with": "harness run: {cmd: read, file, [frag], revisit: true}"})
+        seen += 1
+    del readcheck.ORDER_DEP[:]
+
+
 def run_check(prop, tier):
     mod = importlib.import_module("check_" + prop.lower())
     rep = Report(prop, tier)
     try:
         mod.check(rep)
+        order_dependent(rep)
     except Exception as e:  # a crash of the machinery is a broken check: report it as such, loudly
         import traceback
         traceback.print_exc()
